@@ -51,9 +51,9 @@ struct MoveOnlyTracked : Tracked {
 	MoveOnlyTracked(const MoveOnlyTracked &) = delete;
 	MoveOnlyTracked & operator=(const MoveOnlyTracked &) = delete;
 };
-struct PMConstRef { typedef Tracked Val; typedef const Tracked & Param; static const bool peekable = true; static const char * name() { return "const Tracked&"; } };
-struct PMByValue { typedef Tracked Val; typedef Tracked Param; static const bool peekable = true; static const char * name() { return "Tracked by value"; } };
-struct PMMoveOnly { typedef MoveOnlyTracked Val; typedef const MoveOnlyTracked & Param; static const bool peekable = false; static const char * name() { return "move-only payload"; } };
+struct PMConstRef { typedef Tracked Val; typedef const Tracked & Param; typedef const Tracked & UserParam; static const bool peekable = true; static const char * name() { return "const Tracked&"; } };
+struct PMByValue { typedef Tracked Val; typedef Tracked Param; typedef Tracked UserParam;   /* listeners and predicates take the payload BY VALUE too: a library that forwarded the stored value as an rvalue would hand them the original */ static const bool peekable = true; static const char * name() { return "Tracked by value"; } };
+struct PMMoveOnly { typedef MoveOnlyTracked Val; typedef const MoveOnlyTracked & Param; typedef const MoveOnlyTracked & UserParam; static const bool peekable = false; static const char * name() { return "move-only payload"; } };
 
 template <typename Pol, typename PM = PMConstRef>
 struct Harness {
@@ -205,13 +205,13 @@ struct Harness {
 	void doProcessIf(int pk) {
 		if(ctx.wantLog()) ctx.log(fmt("processIf(%s)", predName(pk)));
 		startCall(CK_PROCESS_IF, pk);
-		bool r = q->processIf([this](int v, const Val & t) { return onPredicate(v, t); });
+		bool r = q->processIf([this](int v, typename PM::UserParam t) { return onPredicate(v, t); });
 		endCall(r, "processIf");
 	}
 	void doProcessUntil(int pk) {
 		if(ctx.wantLog()) ctx.log(fmt("processUntil(%s)", predName(pk)));
 		startCall(CK_PROCESS_UNTIL, pk);
-		bool r = q->processUntil([this](int v, const Val & t) { return onPredicate(v, t); });
+		bool r = q->processUntil([this](int v, typename PM::UserParam t) { return onPredicate(v, t); });
 		endCall(r, "processUntil");
 	}
 	void checkQueued(const typename Q::QueuedEvent & qe, const MEvent & m, const char * what) {
@@ -275,7 +275,7 @@ struct Harness {
 		int id = (int)lhandle.size();
 		lhandle.push_back(Handle()); lkey.push_back(key); lalive.push_back(1);
 		if(ctx.wantLog()) ctx.log(fmt("appendListener(key %d) -> L%d", key, id));
-		lhandle[id] = q->appendListener(key, [this, id](int v, const Val & t) { onListener(id, v, t); });
+		lhandle[id] = q->appendListener(key, [this, id](int v, typename PM::UserParam t) { onListener(id, v, t); });
 		listeners[keyIdx(key)].push_back(id);
 		slot[adds % 3] = id; ++adds;
 	}
